@@ -11,6 +11,9 @@
 //!   `<id> g10|g13 <kind> <r> <m> s<seed> <n>`  C10 bounds on a *generated* periodic input (sent as parameters, not
 //!                                        as hex; both sides rebuild it with the same splitmix64): see `gen_pattern`
 //! `period` = a period of the input claimed by the generator (0 = none claimed).
+//!   `<id> n10|n13 <filename-hex>`             is_compressed_filename -> `ok 0|1 w=same`
+//! every line ends with `w=same` when the same call through the other public entry point (the `CompressionFormat`
+//! enum wrapper for the struct ops, the struct for f10/f13) returned exactly the same, else `w=<that result>`.
 //! `rt` = the library's own decompress(compress(x)) == x; `alloc` = largest single allocation request
 //! during compress <= max(64, 13 + n + n/8); `x` = cross-check of LZ10 decompress against the third-party
 //! `nintendo_lz::decompress_arr` on streams that crate decodes without panicking.
@@ -455,6 +458,96 @@ fn gen_second_use(out: &mut Out, rng: &mut Rng, cop: &'static str, thorough: boo
         out.seq(&[(eop, b1), (eop, b2), (cop, short.clone()), (cop, long.clone())]);
         let b3 = bad_stream(rng, 3, false);
         out.seq(&[(cop, long), (cop, short), (eop, b3), (cop, vec![7u8; 40])]);
+    }
+}
+
+/// Maximum-ratio conforming streams: `q` literals, then only maximal references (18 / 65808 bytes) at displacement
+/// `q` until `n` bytes are produced, i.e. period-q data encoded as tightly as the format allows (LZ10: 144 output
+/// bytes per 17 stream bytes).  A decoder that second-guesses "implausible" headers fails exactly on these.
+fn max_ratio_stream(ext: bool, q: usize, n: usize, rng: &mut Rng) -> Vec<u8> {
+    let maxlen = if ext { 65808 } else { 18 };
+    let mut toks: Vec<Tok> = (0..q.min(n)).map(|_| Tok::Lit(rng.next() as u8)).collect();
+    let mut have = q.min(n);
+    while n - have >= 3 {
+        let len = (n - have).min(maxlen);
+        // never leave a remainder of 1 or 2 bytes that would need literals, unless unavoidable
+        let len = if n - have - len > 0 && n - have - len < 3 && len > 5 { len - 3 } else { len };
+        toks.push(Tok::Ref(len, q));
+        have += len;
+    }
+    for _ in have..n {
+        let b = match &toks[0] {
+            Tok::Lit(b) => *b,
+            _ => 0,
+        };
+        toks.push(Tok::Lit(b));
+    }
+    let n = expand(&toks).len();
+    encode(ext, n, &toks, rng.next() as u8)
+}
+
+fn gen_max_ratio(out: &mut Out, rng: &mut Rng, thorough: bool) {
+    let lens: Vec<usize> = if thorough {
+        vec![19, 255, 256, 257, 288, 289, 290, 1000, 4096, 0x2000, 65535, 65536, 65537, 70000, 200_000]
+    } else {
+        vec![19, 256, 289, 290, 0x2000, 65536, 70000]
+    };
+    for &n in &lens {
+        for ext in [false, true] {
+            let qs: Vec<usize> = if thorough { (1..=8).collect() } else { vec![1, rng.range(2, 8) as usize] };
+            for q in qs {
+                let s = max_ratio_stream(ext, q, n, rng);
+                match rng.below(4) {
+                    0 => out.dec("d10", &s),
+                    1 => out.dec("d13", &s),
+                    2 => out.dec("f10", &s),
+                    _ => {
+                        let w = wrap13(rng, &s);
+                        out.dec("d13", &w)
+                    }
+                }
+                if !ext && q == 1 {
+                    out.dec("d10", &s); // the LZ10 entry point on the LZ10 stream, always
+                }
+            }
+        }
+    }
+}
+
+/// is_compressed_filename: suffix dispatch of both formats, through the struct and the enum.
+fn gen_names(out: &mut Out, rng: &mut Rng) {
+    let names = [
+        "", "a", ".lz", ".cms", ".cmp", "a.lz", "a.cms", "a.cmp", "a.LZ", "a.lz ", "a.lzx", "alz", "a.cm", "a.cmpp", "x/y.bin.lz",
+        "日本.lz", "é.cmp", "a.lz.cmp", "a.cmp.lz", "lz", "cmp", ".lz.", "a..lz", "GameData.bin.lz", "face.cms",
+    ];
+    for n in names.iter() {
+        out.lines.push(format!("lz.{:06} n10 {}", out.n, hexs(n)));
+        out.n += 1;
+        out.lines.push(format!("lz.{:06} n13 {}", out.n, hexs(n)));
+        out.n += 1;
+    }
+    let _ = rng;
+}
+
+/// Size thresholds: lengths crossing 2^8 and 2^16, long runs and short-period data of 256..70 000 bytes.
+fn gen_thresholds(out: &mut Out, rng: &mut Rng, thorough: bool) {
+    for &n in &[255usize, 256, 257, 65535, 65536, 65537] {
+        let nl = rng.range(0, 40) as usize;
+        let noise = rng.bytes(nl);
+        let mut v = vec![rng.next() as u8; n - noise.len().min(n)];
+        v.extend_from_slice(&noise[0..noise.len().min(n)]);
+        out.compress(1, &v[0..n]);
+        if n < 1000 || thorough {
+            out.compress(0, &rng.bytes(n));
+        }
+    }
+    let lens: Vec<usize> = if thorough { vec![256, 289, 290, 1000, 4096, 0x2000, 20000, 70000] } else { vec![289, 0x2000, 70000] };
+    for &n in &lens {
+        let qs: Vec<usize> = if thorough { (1..=8).collect() } else { vec![1, rng.range(2, 8) as usize] };
+        for q in qs {
+            let pat = rng.bytes(q);
+            out.compress(q, &periodic(&pat, n));
+        }
     }
 }
 
@@ -972,6 +1065,7 @@ pub fn gen_for(pid: Option<&str>, seed: u64, tier: &str) -> Vec<String> {
             gen_compress(&mut out, &mut rng, thorough, 6);
             gen_periodic(&mut out, &mut rng, thorough, true);
             gen_cap_break(&mut out, &mut rng, false, thorough);
+            gen_thresholds(&mut out, &mut rng, thorough);
             gen_second_use(&mut out, &mut rng, "c10", thorough);
             gen_top_of_domain(&mut out, &mut rng, "t10", thorough);
         }
@@ -981,6 +1075,7 @@ pub fn gen_for(pid: Option<&str>, seed: u64, tier: &str) -> Vec<String> {
             gen_compress(&mut out, &mut rng, thorough, 3);
             gen_periodic(&mut out, &mut rng, thorough, true);
             gen_cap_break(&mut out, &mut rng, true, thorough);
+            gen_thresholds(&mut out, &mut rng, thorough);
             gen_second_use(&mut out, &mut rng, "c13", thorough);
             gen_header_straddle(&mut out, &mut rng, thorough);
             gen_top_of_domain(&mut out, &mut rng, "t13", thorough);
@@ -990,6 +1085,7 @@ pub fn gen_for(pid: Option<&str>, seed: u64, tier: &str) -> Vec<String> {
             gen_compress(&mut out, &mut rng, thorough, 3);
             gen_periodic(&mut out, &mut rng, thorough, false);
             gen_overlap(&mut out, &mut rng, thorough);
+            gen_thresholds(&mut out, &mut rng, thorough);
             gen_second_use(&mut out, &mut rng, "b10", false);
             gen_second_use(&mut out, &mut rng, "b13", false);
             let ops = std::mem::replace(&mut out.ops, vec!["b13"]);
@@ -999,6 +1095,8 @@ pub fn gen_for(pid: Option<&str>, seed: u64, tier: &str) -> Vec<String> {
         Some("C11") => {
             gen_decode(&mut out, &mut rng, thorough, 6);
             gen_second_use_dec(&mut out, &mut rng, thorough);
+            gen_max_ratio(&mut out, &mut rng, thorough);
+            gen_names(&mut out, &mut rng);
             gen_big(&mut out, &mut rng, thorough);
         }
         _ => {
@@ -1075,9 +1173,26 @@ pub fn run_line(_st: &mut super::State, line: &str) -> String {
                 }
             });
             let req = crate::alloc::max_request_reset();
+            // the same call through the `CompressionFormat` enum wrapper (what LayeredFilesystem uses): `w=same`
+            // when it returns exactly what the format struct returned, otherwise the wrapper's own result
+            let rw = no_panic(|| {
+                if is13 {
+                    CompressionFormat::LZ13(LZ13CompressionFormat {}).compress(&data)
+                } else {
+                    CompressionFormat::LZ10(LZ10CompressionFormat {}).compress(&data)
+                }
+            });
+            let w = match (&r, &rw) {
+                (Err(_), Err(_)) => "w=same".to_string(),
+                (Ok(Err(_)), Ok(Err(_))) => "w=same".to_string(),
+                (Ok(Ok(a)), Ok(Ok(b))) if a == b => "w=same".to_string(),
+                (_, Err(_)) => "w=panic".to_string(),
+                (_, Ok(Err(_))) => "w=err".to_string(),
+                (_, Ok(Ok(b))) => format!("w=ok:{}", hex(b)),
+            };
             match r {
                 Err(_) => "panic".to_string(),
-                Ok(Err(_)) => "err Invalid".to_string(),
+                Ok(Err(_)) => format!("err Invalid {}", w),
                 Ok(Ok(c)) => {
                     let back = no_panic(|| {
                         if is13 {
@@ -1093,9 +1208,9 @@ pub fn run_line(_st: &mut super::State, line: &str) -> String {
                     if is13 {
                         let n = data.len();
                         let alloc = if req <= std::cmp::max(64, 13 + n + n / 8) { "alloc=ok" } else { "alloc=big" };
-                        format!("ok {} {} {}", hex(&c), rt, alloc)
+                        format!("ok {} {} {} {}", hex(&c), rt, alloc, w)
                     } else {
-                        format!("ok {} {}", hex(&c), rt)
+                        format!("ok {} {} {}", hex(&c), rt, w)
                     }
                 }
             }
@@ -1109,17 +1224,45 @@ pub fn run_line(_st: &mut super::State, line: &str) -> String {
                 "f10" => CompressionFormat::LZ10(LZ10CompressionFormat {}).decompress(&s),
                 _ => CompressionFormat::LZ13(LZ13CompressionFormat {}).decompress(&s),
             });
+            // the other public way to the same behaviour (enum wrapper for the struct ops, struct for f10 / f13)
+            let lz10 = f[1].ends_with("10");
+            let via_enum = !f[1].contains('f');
+            let rw = no_panic(|| match (lz10, via_enum) {
+                (true, true) => CompressionFormat::LZ10(LZ10CompressionFormat {}).decompress(&s),
+                (false, true) => CompressionFormat::LZ13(LZ13CompressionFormat {}).decompress(&s),
+                (true, false) => (LZ10CompressionFormat {}).decompress(&s),
+                (false, false) => (LZ13CompressionFormat {}).decompress(&s),
+            });
+            let w = match (&r, &rw) {
+                (Err(_), Err(_)) => "w=same".to_string(),
+                (Ok(Err(_)), Ok(Err(_))) => "w=same".to_string(),
+                (Ok(Ok(a)), Ok(Ok(b))) if a == b => "w=same".to_string(),
+                (_, Err(_)) => "w=panic".to_string(),
+                (_, Ok(Err(_))) => "w=err".to_string(),
+                (_, Ok(Ok(b))) if summ => format!("w=ok:n={},fnv={}", b.len(), fnv_bytes(b)),
+                (_, Ok(Ok(b))) => format!("w=ok:{}", hex(b)),
+            };
             match r {
                 Err(_) => "panic".to_string(),
                 Ok(res) => {
                     let x = if f[1] == "d10" || f[1] == "f10" || f[1] == "h10" { cross_check(&s, &res) } else { "x=ok" };
                     match res {
-                        Ok(d) if summ => format!("ok n={},fnv={} {}", d.len(), fnv_bytes(&d), x),
-                        Ok(d) => format!("ok {} {}", hex(&d), x),
-                        Err(_) => format!("err Invalid {}", x),
+                        Ok(d) if summ => format!("ok n={},fnv={} {} {}", d.len(), fnv_bytes(&d), x, w),
+                        Ok(d) => format!("ok {} {} {}", hex(&d), x, w),
+                        Err(_) => format!("err Invalid {} {}", x, w),
                     }
                 }
             }
+        }
+        "n10" | "n13" => {
+            // is_compressed_filename through the struct and through the enum
+            let name = unhexs(f[2]);
+            let (a, b) = if f[1] == "n10" {
+                ((LZ10CompressionFormat {}).is_compressed_filename(&name), CompressionFormat::LZ10(LZ10CompressionFormat {}).is_compressed_filename(&name))
+            } else {
+                ((LZ13CompressionFormat {}).is_compressed_filename(&name), CompressionFormat::LZ13(LZ13CompressionFormat {}).is_compressed_filename(&name))
+            };
+            format!("ok {} {}", a as u8, if a == b { "w=same".to_string() } else { format!("w=ok:{}", b as u8) })
         }
         _ => "bad-case".to_string(),
     };
